@@ -83,7 +83,12 @@ fn c01_a_rule_in_an_engine_matches_what_it_matches_alone() {
         frontier = nextf;
     }
     let urls = ["https://ad.d1.a/ad/a1%ad-ad_a.d?a=d&d1=a-1", "https://a-d.ad/1a/d1/=a=/%1d%a1", "https://d.a/aéd/é1/a_1/A1/AD", "http://1.d/a.d/d.a/ad.1/a*d", "https://xn--d-9fa.a/ad=1/a%/d-/_a_/.d."];
-    let reqs: Vec<Request> = urls.iter().map(|u| Request::new(u, "https://src.test/", "script").unwrap()).collect();
+    let mut reqs: Vec<Request> = urls.iter().map(|u| Request::new(u, "https://src.test/", "script").unwrap()).collect();
+    // pre-parsed requests carry the URL as the embedder gave it: non-ASCII letters stay unencoded and are token characters of the
+    // request just as they are of a rule
+    for (u, h) in [("https://d.a/aéd/é1/éa/dé/AÉ/é", "d.a"), ("https://a.d/1é/a-é_d/é.é/=é=", "a.d")] {
+        reqs.push(Request::preparsed(u, h, "src.test", "script", true));
+    }
     let (mut n, mut bad) = (0u64, vec![]);
     for body in &bodies {
         for text in [body.clone(), format!("|{body}"), format!("{body}|"), format!("||{body}"), format!("@@{body}"), format!("{body}$important")] {
